@@ -28,7 +28,8 @@ from .common import REPO, MachineryFailure, Result, bind_repo, rat, seed
 FAMILIES = {
     'standard': 'example1', 'cogen': 'example3', 'heat': 'example2', 'heatpump': 'example10_HP', 'chiller': 'example11_AC',
     'district_heating': 'example12_DH', 'addons': 'example1_addons', 'sdacgt': 'S-DAC-GT', 'sbt': 'example_SBT_Lo_T',
-    'sutra': 'SUTRAExample1', 'overpressure': 'example_overpressure',
+    'sutra': 'SUTRAExample1', 'overpressure': 'example_overpressure', 'ags': 'Wanju_Yuan_Closed-Loop_Geothermal_Energy_Recovery',
+    'fervo': 'Fervo_Norbeck_Latimer_2023',
 }
 # documented internal rescalings applied by the module readers after ReadParameter (value stored = value written x factor)
 RESCALE = {'Reservoir Depth': 1000, 'Reservoir Impedance': 1000}
